@@ -7,7 +7,7 @@ ASSIGN_OPS = ("=", "+=", "-=", "*=", "/=", "%=", "&=", "|=", "^=", "<<=", ">>=")
 
 
 class Block:
-    __slots__ = ("id", "elems", "term", "cond", "succ", "noreturn", "case", "default", "label", "term_loc")
+    __slots__ = ("id", "elems", "term", "cond", "succ", "noreturn", "case", "default", "label", "term_loc", "sc_forced")
 
     def __init__(self, j):
         self.id = j["id"]
@@ -20,6 +20,7 @@ class Block:
         self.default = j.get("default", False)
         self.label = j.get("label")
         self.term_loc = j.get("term_loc")
+        self.sc_forced = j.get("sc_forced", 0)  # +1/-1: leaving this `||`/`&&` block early decides the successor's branch (same / negated)
 
 
 class Event:
